@@ -28,6 +28,9 @@ CHECKS = {
             "independent quadrature of the model's own density over ten interval classes (one-sided, touching 0, "
             "straddling, half-infinite, whole line) wherever the integral is finite, plus additivity over a drawn "
             "split point (incl. 0), sign rules and TruncatedLevyMeasure = integral over the intersection. "
+            "Far tails (8..60 decay lengths from zero, HEM and VG) are decided separately against incomplete-gamma / "
+            "exponential-integral closed forms of the re-typed density at 1e-9 relative. A tenth of the CGMY models of "
+            "the branches next to y=1 have y within 1e-5..1e-2 of 1. "
             "Equality is up to a stated numerical tolerance, so deviations below ~1e-7 relative are invisible.",
             "Trusts scipy.integrate.quad at epsrel 1e-12 on decade-split pieces (validated against closed-form "
             "incomplete-gamma values to 1e-15); end points in [1e-4,20]; n <= 6."),
@@ -38,7 +41,8 @@ CHECKS = {
             "probability-step, credit symmetric/asymmetric) in d=1..3 with generated models, steps and 0..4 "
             "successive refine() calls; after construction and after each refinement: finite strictly increasing "
             "axes, 0 at the origin index with -h/+h neighbours, ends = reported truncations, requested tail "
-            "probability (1e-6) and per-step probability, middle() halves the gap mass, thresholds on cell "
+            "probability (1e-6, and the mass left outside = (1-p) of the one-sided mass to 1e-4 relative, incl. weakly damped "
+            "CGMY margins with G, M in [0.1, 0.3]) and per-step probability, middle() halves the gap mass, thresholds on cell "
             "boundaries; refinement keeps old states at doubled indices, inserts exactly the pre-refinement "
             "middle() strictly inside each gap, halves h, doubles the origin, keeps the bounds, refines shared "
             "axes once each.",
@@ -74,7 +78,9 @@ CHECKS = {
             "single-uniform entry point and compared with p_k (resp. cell rate / intensity) at 1e-9; states of "
             "probability zero, outside the grid or the origin with positive measure are violations; batch calls "
             "are driven with scripted uniforms / bits and compared element-wise; histories (repeat, out-of-order, "
-            "beyond-cache, batch) on a long-lived sampler must agree with fresh samplers. Measure-zero anomalies "
+            "beyond-cache, batch, cost resets; for the inversion sampler also with its memo capacity lowered to 2..60 "
+            "entries, standing for chains larger than the memo) on a long-lived sampler must agree with fresh samplers. "
+            "Measure-zero anomalies "
             "(isolated u, rounding slivers) are reported under one known-finding key per sampler family.",
             "Candidate break points are read from the sampler's own tables only to make the measurement exact; "
             "the verdict comes from black-box evaluations. TABLE: law implied by its tables plus scripted batch. "
@@ -89,7 +95,10 @@ CHECKS = {
             "iff infinite variation and exactly 0 otherwise; the jump variance must lie within the per-cell "
             "oscillation bound. For copula chains (d=2,3) every margin's mean is checked the same way with the "
             "independently computed box-truncation leak of the other coordinates added to the tolerance; a third of the "
-            "2-d cases mix a finite- with an infinite-variation margin.",
+            "2-d cases mix a finite- with an infinite-variation margin; the diffusion matrix D of the copula chain must be "
+            "finite with D D^T = diag(sigma^2) for finite variation (D D^T - diag(sigma^2) positive semi-definite "
+            "otherwise). One 1-d case in ten uses a very coarse fixed-size grid (h in [2.2, 6]): the mean is decided, the "
+            "small-jump variance is labelled undecided there.",
             "Rates are those verified by C01; a_decl is read from the model after set_representation (the "
             "conversions on the untruncated measure are C10's subject)."),
     "C03": ("3/C03",
@@ -101,7 +110,10 @@ CHECKS = {
             "fresh level-(l-1) chain, the mass sent to 'no coarse jump' against quadrature, the kernel is "
             "re-measured through coupling_state with scripted uniforms, even increments must be copied and odd "
             "ones moved to an adjacent coarse state, and the coarse diffusion coefficient / drift must be the "
-            "level-(l-1) ones driven by the same scripted Brownian increment. For copula couplings (d=2,3) every "
+            "level-(l-1) ones driven by the same scripted Brownian increments over drawn payoff dates (one maturity "
+            "T in {0.25, 1, 2.5} or monthly averaging dates); initial steps down to 1e-8 of the jump scale for "
+            "finite-variation models. For copula couplings (d=2,3) two scripted Brownian rows drive two consecutive "
+            "coupled paths over several dates (each popped once), and every "
             "fine state's kernel is measured by bisection on the coupling uniform and compared with the "
             "conditional law of the coarse cell given the fine cell (rows labelled all-even / all-odd / mixed "
             "parity), and the telescoping identity is checked against a fresh level-0 chain. A third of the 1-d "
@@ -159,7 +171,9 @@ CHECKS = {
             "order, report price = df x mean(notional x payoff) and error = unbiased sample std / sqrt(n) per "
             "component, and with controls the mean of Y - b*(X - price_X) with b* the sample regression coefficient "
             "(adjusted samples compared one by one), equal to the raw mean when the given prices are the sample "
-            "means, with adjusted variance <= raw variance.",
+            "means, with adjusted variance <= raw variance. Underlying sizes 1, 1e-3 and 1e-6 (values, strikes and control "
+            "prices scaled together; tolerances relative). The same cases are priced with 2-3 worker processes: the "
+            "recorded terminal spots must be scripted paths and every estimator the textbook one of those spots.",
             "Control-variate comparisons only for covariance matrices with condition number < 1e4 (counted "
             "otherwise); the near-singular guard of the library (b*=0) is mirrored."),
     "C08": ("3/C08",
@@ -177,7 +191,10 @@ CHECKS = {
             "known finding: chunks share the pre-drawn buffers). Adaptive engine (Engine.price, several passes, levels "
             "deep-copied and added) on the real coupling: seeded repeat incl. every coupling decision, and every "
             "variate compared with the right-jump probability (recorded by a probe at the comparison) occurs once. "
-            "Multilevel engine with worker processes (default count, 2, ...) x seed / none in jump-time mode: distinct samples.",
+            "Multilevel engine with worker processes (default count, 2, ...) x seed / none in jump-time mode: distinct samples. "
+            "Pre-drawn variates of the five fixed-date simulators (direct, 1-d chain, copula chain, both couplings): one "
+            "Brownian and one Poisson row per path, rows pairwise distinct, popped once per path, path i driven by row i; "
+            "one pre-computation of more than 2^21 normals: rows pairwise distinct.",
             "The OS scheduling of workers is not controlled; the clock and every seed call are. Equal values = "
             "shared variates holds because payoffs are continuous in the variates (sigma >= 0.05)."),
     "C15": ("3/C15",
@@ -215,7 +232,8 @@ CHECKS = {
             "Hypothesis-generated copula parameters, argument vectors and rectangles over 12 decades and all orthants; "
             "validity predicates (grounded, volume >= 0, margins = identity), monotonicity and round trip of the "
             "Clayton conditional distribution, high-precision (mpmath) mixed partial derivative",
-            "Exploration: Clayton (theta in [0.2,5], eta in [0,1] incl. both end points), independent and completely "
+            "Exploration: Clayton (theta in [0.2,5], and up to 150 for the conditional distribution and its inverse; eta "
+            "in [0,1] incl. both end points), independent and completely "
             "dependent copulas in d=2,3: F vanishes when an argument is 0, every generated rectangle of (-inf,inf]^d "
             "(each coordinate positive, negative, straddling, touching zero, or with an infinite upper side) has "
             "volume >= 0, the one-dimensional margins (through the library's margin operator) are the identity, the "
@@ -237,7 +255,10 @@ CHECKS = {
             "over a split along any axis (incl. splits at +-1e-3..1e-12 next to zero and, in the sub-check "
             "end-points-at-zero, at exactly zero: intervals (a,0] and (0,b] against one-sided limits); marginal masses equal "
             "quadrature of the marginal density and bound the off-axis mass; sub-margin masses equal the I-margins; "
-            "the inverse tail integral inverts the tail integral both ways; a fresh model returns the same values.",
+            "the inverse tail integral inverts the tail integral both ways; a fresh model returns the same values. Rectangle "
+            "sides also hug an axis (end points 1e-4..1e-10 of the jump scale). Half of the cases also truncate a model "
+            "after its construction (random window, as a copula chain does): fast path = general formula and whole-line "
+            "mass = difference of the model's own marginal tail integrals.",
             "(a,0] contains the hyperplane x_k=0, so its reference mass is straddling minus positive piece; "
             "joint-density integration (dblquad) for Clayton is part of C01's copula sub-check."),
     "C17": ("3/C17",
@@ -252,7 +273,8 @@ CHECKS = {
             "call-put=forward, call spread and butterfly = call combinations, digital call+put=1, KI+KO=vanilla with "
             "fresh and reused objects and each barrier leg = its definition from the path's extremes, vector strikes, "
             "notional linear; histories contain twin paths (same terminal value, different extremes); every underlying class (all dimensions) as one "
-            "object valued on a sequence of paths with representation switches equals a fresh object bitwise.",
+            "object valued on a sequence of paths with representation switches equals a fresh object bitwise; underlyings are "
+            "valued on their own or through a Product switched with Product.update (the engines' route).",
             "Barrier products are kept in identity representation (the barrier is compared with the raw path); "
             "LookBack raises by design and is excluded."),
     "C18": ("3/C18",
@@ -260,7 +282,8 @@ CHECKS = {
             "bounds, monotone, convex, digital, density) and differentials between COS, FFT, the Black-Scholes closed "
             "form and the VG/CGMY parametrisations; the admissible box is measured per case by a convergence sweep",
             "Exploration: for BS, HEM, Merton, VG and CGMY (five branches, y<=1.8), T in [0.1,3] and ladders of 3..9 "
-            "strikes in the inner 40% of the pricer's truncation range (centred on the forward): call-put = df(F-K) with the model forward, "
+            "strikes in the inner 40% of the pricer's truncation range (centred on the forward; the range itself must contain "
+            "mean -+ 6 std of the expanded variable, both taken from the model's exponent by differences): call-put = df(F-K) with the model forward, "
             "max(df(F-K),0) <= call <= df F, monotone and convex in K, digital in [0,df], decreasing, inside the one-sided "
             "slopes of the call and = -dC/dK where the call is smooth at the step used, "
             "scalar = vector strikes, implied density >= 0 and of mass 1 (both up to the truncation error measured "
@@ -298,7 +321,9 @@ CHECKS = {
             "(1e-8 spot) with the parameter inside its interval, or raise; calibrate_model_parameter on the default or "
             "another parameter against a call/put/forward priced by the same model at a drawn true value must return "
             "a value in the interval for which the rebuilt model reprices the target, or raise; the input model's "
-            "parameters and cached fields must be unchanged. Sequences of valid/invalid assignments and "
+            "parameters and cached fields must be unchanged; the model returned by the default calibration must equal a "
+            "directly constructed one (cached fields, density, masses, second moments, omega, drift) and is calibrated again "
+            "to the same, a 3e-6 / 1e-3 / 20% moved volatility under the same contract. Sequences of valid/invalid assignments and "
             "initialisation() calls followed by a rebuild must give the same cached fields, exponent, measure "
             "integrals, omega and process drift as direct construction; invalid assignments must raise and keep the "
             "old value.",
